@@ -449,7 +449,7 @@ func canonNum(lit string) (canon string, nd, mag int, ok bool) {
 
 // idRec describes the "id" member of a Feature object as an independent reader (encoding/json, generic tree) sees it.
 func idRec(obj map[string]any) map[string]any {
-	r := map[string]any{"k": "absent", "s": "", "num": "", "nd": 0, "mag": 0}
+	r := map[string]any{"k": "absent", "s": "", "num": "", "nd": 0, "mag": 0, "lit": "", "form": ""}
 	v, present := obj["id"]
 	if !present {
 		return r
@@ -471,6 +471,11 @@ func idRec(obj map[string]any) map[string]any {
 	}
 	if c, nd, mag, ok := canonNum(lit); ok {
 		r["num"], r["nd"], r["mag"] = c, nd, mag
+		// the spelling as text, and whether it is a plain decimal (no exponent part): a lexical observation only
+		r["lit"], r["form"] = lit, "exp"
+		if !strings.ContainsAny(lit, "eE") {
+			r["form"] = "plain"
+		}
 	} else if r["k"] == "n" {
 		r["nd"], r["mag"] = 99, 1000000
 	}
